@@ -169,6 +169,19 @@ func (c *Crew) Errorf(format string, args ...interface{}) {
 // When the mid is either (the variable) TimersMachine and the given
 // state is nil, the timers machine's state is reset.
 func (c *Crew) SetMachine(ctx context.Context, mid string, src *crew.SpecSource, state *core.State) error {
+	// Resolve an ordinary machine's spec before touching the crew:
+	// when that fails, nothing must have been created or reported.
+	var (
+		resolvedSrc  *crew.SpecSource
+		resolvedSpec *core.Spec
+	)
+	if src != nil && mid != TimersMachine && mid != CaptainMachine {
+		var err error
+		if resolvedSrc, resolvedSpec, err = ResolveSpecSource(ctx, src); err != nil {
+			return err
+		}
+	}
+
 	m, have := c.Machines[mid]
 
 	if !have {
@@ -178,6 +191,17 @@ func (c *Crew) SetMachine(ctx context.Context, mid string, src *crew.SpecSource,
 		}
 
 		c.Machines[mid] = m
+
+		// A new machine -- possibly one that was deleted earlier
+		// in this round of processing.  Report it as alive and
+		// with its state, so that nothing of a previous machine
+		// with this id survives in what has been reported.
+		ch := c.change(mid)
+		ch.Deleted = false
+		ch.State = m.State.Copy()
+	} else if state != nil {
+		// Apply (and not just report) the new state.
+		m.State = DefaultState(state)
 	}
 
 	if src != nil {
@@ -220,12 +244,8 @@ func (c *Crew) SetMachine(ctx context.Context, mid string, src *crew.SpecSource,
 		m.Specter = spec
 	default:
 		if src != nil {
-			ss, spec, err := ResolveSpecSource(ctx, src)
-			if err != nil {
-				return err
-			}
-			m.SpecSource = ss
-			m.Specter = spec
+			m.SpecSource = resolvedSrc
+			m.Specter = resolvedSpec
 		}
 	}
 
